@@ -215,6 +215,8 @@ DIRECTED = ['2_14', '+204-034', '2014- 7', '2003-09-25T1 ', '2014-01-01T10:00+01
             u'２０１４-02-04', u'2014-02-04T1٠:30', u'2014−02−04', '', ' ', '2014 ', ' 2014',
             '20 14', '+2014', '-2014', '2014-+2-04', '2014-02-+4', '2014-02-04T+1:30', '2014-02-04T10:+3', '1e10', '0x14',
             '2014-02-04T10:30:45.123456789123456789', '2014-02-04T10:30:45,000000000000000000001',
+            # day 366 of century years that are not leap years
+            '1900-366', '2100366', '1700-366', '1800366', '1900-366T12:30', '2100-366T00:00Z', '2200-366',
             # offsets at and beyond a whole day, both signs, all three widths
             '2014-02-04T10:30-24:00', '2014-02-04T10:30-2400', '2014-02-04T10:30-24', '2014-02-04T10:30+2400', '2014-02-04T10:30+24',
             '2014-02-04T10:30-24:01', '2014-02-04T10:30-25', '2014-02-04T10:30+99:59', '2014-02-04T10:30-23:60', '10:30-24:00', '1030-24']
